@@ -339,7 +339,8 @@ func genC05(g *G) {
 	g.fnFilter = map[string]bool{"rpfx": true, "rext": true}
 	genC04(g)
 	g.fnFilter = nil
-	v4Shapes := []string{"0", "1", "9", "10", "99", "100", "255", "256", "00", "01", "001", "a", "1a", "", "-1", "+1", "１", "000", "0255"}
+	v4Shapes := []string{"0", "1", "9", "10", "99", "100", "255", "256", "00", "01", "001", "a", "1a", "", "-1", "+1", "１", "000", "0255",
+		"1_2", "2_5_5", "1_0", "0x1", "0b1", "0o7", "1e1", "٣", "1 ", "12_"}
 	v6Shapes := []string{"0", "a", "F", "g", "ab", "0x", "", "9", "f"}
 	roots4 := []string{"in-addr.arpa", "IN-ADDR.ARPA", "İn-addr.arpa", "in-addr.arpa.", "in-addr.arpa.."}
 	roots6 := []string{"ip6.arpa", "IP6.ARPA", "İp6.arpa", "ip6.arpa.", "Ip6.Arpa"}
